@@ -5,6 +5,7 @@
 From Coq Require Import ZArith List String Lia.
 From FxV Require Import model.M_EndBlock model.M_Tally gen.Gen_EndBlock proofs.P_EndBlock proofs.P_Tally.
 From FxV Require Import lib.Dec model.M_Gov proofs.P_Gov proofs.P_Gov2 proofs.P_Gov3.
+From FxV Require Import model.M_OsetPhase proofs.P_OsetPhase.
 Import ListNotations.
 Open Scope Z_scope.
 
@@ -91,3 +92,91 @@ Theorem C07_nonvacuous :
               map o_online (r_oracles r) = [true; false] /\ r_bcall_cursor r = 1 /\ r_any r = true.
 Proof. exact good_args_example. Qed.
 Print Assumptions C07_nonvacuous.
+
+(* ---- the remaining two phases: createOracleSetRequest (float64 power difference rendered with "%.8f" and parsed
+   back as a LegacyDec, panic if the text does not parse) and pruneOracleSet; model M_OsetPhase runs the float
+   bit-exactly (Coq.Floats.SpecFloat) ---- *)
+
+(* ONE block, every state: with non-negative powers below 2^64 in total and stored oracle sets whose normalised powers
+   sum to at most MaxUint32 (an invariant, see the next theorem), the WHOLE crosschain EndBlocker completes — in
+   particular the float64 quotient is never NaN/Inf, so the "%.8f" text always parses — the stored sets keep the
+   invariant and the latest nonce moves by at most one.
+   Depends on the standard library's real-number axioms through Flocq's Bdiv_correct (listed by Print Assumptions). *)
+Theorem C07_endblock_full_total : forall s p h,
+  powers_ok (oracles s) -> sets_ok p ->
+  exists r m p', endblock_full gen_slash_args s p h = Ok (r, m, p') /\ sets_ok p' /\
+                 op_latest p <= op_latest p' <= op_latest p + 1.
+Proof. intros s p h. apply endblock_full_total. exact C07_slash_args_are_addresses. Qed.
+Print Assumptions C07_endblock_full_total.
+
+(* EVERY history: starting from genesis (no oracle set stored), for any number of blocks between which the oracles,
+   their stakes, the pending oracle sets / batches / bridge calls, confirmations, cursors, the window, the last
+   observed oracle-set nonce and the change-percent parameter change ARBITRARILY (only the stored sets and the latest
+   nonce are carried from one end blocker to the next: nothing else writes them, see C07_oset_writers), no end
+   blocker panics. *)
+Theorem C07_every_history_endblock_total : forall bs,
+  Forall (fun b => powers_ok (oracles (b_state b))) bs ->
+  run_blocks gen_slash_args genesis_phase bs <> Panic.
+Proof. intros bs. apply run_blocks_never_panics. exact C07_slash_args_are_addresses. Qed.
+Print Assumptions C07_every_history_endblock_total.
+
+(* the stored oracle sets and the latest nonce are written by the end blocker and by genesis import only *)
+Theorem C07_oset_writers :
+  gen_oset_writers = [("AddOracleSetRequest", "x/crosschain/keeper:createOracleSetRequest");
+                      ("DeleteOracleSet", "x/crosschain/keeper:pruneOracleSet");
+                      ("SetLatestOracleSetNonce", "x/crosschain/keeper:AddOracleSetRequest");
+                      ("SetLatestOracleSetNonce", "x/crosschain/keeper:InitGenesis");
+                      ("StoreOracleSet", "x/crosschain/keeper:AddOracleSetRequest");
+                      ("StoreOracleSet", "x/crosschain/keeper:InitGenesis")]%string.
+Proof. reflexivity. Qed.
+Print Assumptions C07_oset_writers.
+
+(* the guards and derived values of the two phases, as the model has them (need_request, create_request, prune) *)
+Theorem C07_oset_conditions :
+  gen_oset_conditions =
+  [("createOracleSetRequest", "if currentOracleSet,isNeed:=k.isNeedOracleSetRequest(ctx); isNeed");
+   ("isNeedOracleSetRequest", "if latestOracleSet==nil");
+   ("isNeedOracleSetRequest", "if k.GetLastOracleSlashBlockHeight(ctx)==uint64(ctx.BlockHeight())");
+   ("isNeedOracleSetRequest", "if err!=nil");
+   ("isNeedOracleSetRequest", "oracleSetUpdatePowerChangePercent:=k.GetOracleSetUpdatePowerChangePercent(ctx)");
+   ("isNeedOracleSetRequest", "if oracleSetUpdatePowerChangePercent.GT(sdkmath.LegacyOneDec())");
+   ("isNeedOracleSetRequest", "oracleSetUpdatePowerChangePercent=sdkmath.LegacyOneDec()");
+   ("isNeedOracleSetRequest", "if powerDiffDec.GTE(oracleSetUpdatePowerChangePercent)");
+   ("AddOracleSetRequest", "if len(currentOracleSet.Members)==0");
+   ("pruneOracleSet", "tooEarly:=currentBlock<signedOracleSetsWindow");
+   ("pruneOracleSet", "if lastObserved!=nil&&!tooEarly");
+   ("pruneOracleSet", "earliestToPrune:=currentBlock-signedOracleSetsWindow");
+   ("pruneOracleSet", "if earliestToPrune>set.Height&&lastObserved.Nonce>set.Nonce");
+   ("PowerDiff", "return math.Abs(delta/float64(math.MaxUint32))")]%string.
+Proof. reflexivity. Qed.
+Print Assumptions C07_oset_conditions.
+
+(* pruning never removes an oracle set the external chain has not moved past, nor one younger than the signed
+   window (slashing for it can still happen), and removes nothing else's fields *)
+Theorem C07_prune_keeps_needed : forall p h w r,
+  In r (op_sets p) ->
+  (match op_last_observed p with None => True | Some lo => lo <= or_nonce r \/ h - w <= or_height r end) ->
+  In r (op_sets (prune p h w)).
+Proof. exact prune_keeps. Qed.
+Print Assumptions C07_prune_keeps_needed.
+
+(* a created request gets the next nonce, the current height and the freshly normalised members; otherwise nothing
+   is stored *)
+Theorem C07_create_request_shape : forall p m h sl p',
+  create_request p m h sl = Ok p' ->
+  (p' = p \/ created p p' m h) /\ op_last_observed p' = op_last_observed p /\ op_pct p' = op_pct p.
+Proof. exact create_request_ok. Qed.
+Print Assumptions C07_create_request_shape.
+
+(* the normalised powers GetCurrentOracleSet produces are non-negative and sum to at most MaxUint32 *)
+Theorem C07_normalised_powers_bounded : forall l m,
+  powers_ok l -> current_oracle_set l = Ok m -> members_ok m.
+Proof. exact current_oracle_set_members_ok. Qed.
+Print Assumptions C07_normalised_powers_bounded.
+
+Theorem C07_oset_phase_nonvacuous :
+  exists p, run_blocks good_args genesis_phase ex_blocks = Ok p /\
+            map or_nonce (op_sets p) = [2] /\ op_latest p = 2 /\
+            option_map or_members (latest_set p) = Some [(0, 4294967295)].
+Proof. exact ex_blocks_run. Qed.
+Print Assumptions C07_oset_phase_nonvacuous.
